@@ -156,8 +156,6 @@ def check_dataclass(t, cls, n_pos, kws, tag=""):
                     key, expected, repr(ex)[:120], rp)
         return
     if expected == "ValueError":
-        if kws and kws[-1] in fields[:n_pos] and got_node != "ValueError":
-            return      # keyword repeating a positional field: unconstrained by the property
         if got_node != "ValueError":
             t.violation("convert_call_to_dict:raises ValueError for unknown or surplus arguments",
                         "malformed constructor call accepted", key, "ValueError",
